@@ -37,6 +37,7 @@ type Job struct {
 	MaxConc   int            `json:"maxconc,omitempty"`  // concretisation fan-out cap (default 64)
 	ConcRet   []string       `json:"concret,omitempty"`  // functions whose scalar result is concretised eagerly (exploration strategy only)
 	DeadlineS float64        `json:"deadline_s,omitempty"`
+	HangIsBug bool           `json:"hang_is_violation,omitempty"` // termination is part of the property: BUDGET ends are counterexample candidates
 }
 
 type ViolationOut struct {
